@@ -5,6 +5,7 @@
 package stime
 
 import (
+	"runtime"
 	"time"
 	"unsafe"
 
@@ -163,6 +164,10 @@ func RecvAfter(d Duration) Time {
 }
 
 func Sleep(d Duration) {
+	if core.Foreign() {
+		runtime.Gosched() // a goroutine of the code under test's own: not scheduled by the simulator
+		return
+	}
 	if core.Active() {
 		core.YieldSleep(int64(d))
 		return
